@@ -31,6 +31,7 @@ import (
 	"sync"
 	"time"
 
+	"verif/lib/concfs"
 	"verif/lib/ev"
 	"verif/lib/kf"
 )
@@ -131,6 +132,9 @@ func (g *global) merge(c chunk, r reply) {
 }
 
 func main() {
+	concfs.MaybeShard(concPlan)
+	concfs.MaybeReplay(concfs.OrLinear)
+
 	id := flag.String("id", "C03", "")
 	tier := flag.String("tier", "quick", "")
 	replayFile := flag.String("replay", "", "re-execute the case of a replay file")
@@ -138,6 +142,7 @@ func main() {
 	nWorkers := flag.Int("workers", 0, "")
 	only := flag.String("only", "", "restrict to blocks whose name contains this text (debugging)")
 	showPlan := flag.Bool("plan", false, "print the blocks of the tier and their sizes, then exit")
+	noConc := flag.Bool("noconc", false, "skip the concurrent part")
 	flag.Parse()
 
 	if *showPlan {
@@ -380,6 +385,37 @@ func main() {
 		}
 	}
 
+	// concurrent part (see conc.go)
+	conc := map[string]any{}
+
+	if *only == "" && !*noConc {
+		cb := 60
+		if *tier == "thorough" {
+			cb = 600
+		}
+
+		if left := int(time.Until(start.Add(time.Duration(budget) * time.Second)).Seconds()); left < cb {
+			cb = max(left, 20)
+		}
+
+		ct, herr := concfs.RunPlan(concPlan(*tier), rep, cb)
+		if herr != "" {
+			harness("concurrent part: " + herr)
+		}
+
+		concfs.AddCoverage(conc, ct, concPlan(*tier).Bound)
+		conc["distinct_outcomes"] = ct.DistinctOut
+		conc["programs_with_schedule_dependent_outcome"] = ct.MultiOut
+		conc["rule"] = "every ordered pair of the permission-sensitive templates, thread 0 and thread 1 acting for two different non-administrator users through their own views; " + concfs.CoverageRule
+
+		if ct.TimedOut > 0 {
+			exhaustive = false
+		}
+
+		fmt.Printf("C03 concurrent: programs=%d schedules=%d distinct-outcomes=%d schedule-dependent-programs=%d min-bound=%d timed-out=%d\n",
+			ct.Programs, ct.Executions, ct.DistinctOut, ct.MultiOut, ct.MinBound, ct.TimedOut)
+	}
+
 	code := rep.Finish()
 
 	var samples []any
@@ -415,6 +451,7 @@ func main() {
 			"rule":       "every configuration of a block (call shape x acting user) = full product of the per-node covering sets of (owner, group, mode); each built by an administrator history on a fresh MemFS and on tmpfs, then every call of the shape is executed on both sides (rebuilt after any call that changed either tree). states = distinct configurations built; transitions = calls compared; distinct_nontrivial = distinct (call, class of the acting user on the operand, kernel outcome) triples observed",
 			"samples":    samples,
 			"exhaustive": exhaustive, "bound": bound,
+			"concurrent_part": conc,
 			"blocks_complete": len(done), "blocks_partial": append([]string{}, partial...), "blocks": g.stats,
 			"builds": g.builds, "kernel_refused": g.refused, "kernel_allowed": g.allowed,
 			"skipped_kernel_policy_protected_hardlinks": g.skipped, "skipped_kernel_policy_other": g.skippedOther,
@@ -440,6 +477,7 @@ func main() {
 			"umask is varied for creating calls only; other calls run with umask 022",
 			"modification times are not compared (Chtimes: allowed/refused only); size and link count of symbolic links are not compared (C01/C04)",
 			"handles are opened by the acting user on its own view; handles passed between views are not explored",
+			"concurrent part: the oracle is linearizability against the sequential behaviour of the same build (not the kernel); scheduling assumptions as in C06: " + strings.Join(concfs.Assumptions, "; "),
 		},
 		Violations: rep.NewCount(),
 	})
